@@ -81,6 +81,12 @@ def points(tier: str) -> List[Dict[str, Any]]:
             if depth >= 3:
                 for seq in itertools.product(ev3, repeat=3):
                     pts.append({"age": age, "jitter": jit, "events": list(seq)})
+    # an application callback raises once while a datagram is being handled: the duplicate is a duplicate all the same
+    resp = [x for x in events if x[1].startswith("r-") and x[0] in (1, 1001)]
+    for e in resp:
+        pts.append({"age": "recent", "jitter": 0.0, "events": [e], "raising": True})
+    for seq in itertools.product(resp, repeat=2):
+        pts.append({"age": "recent", "jitter": 0.0, "events": list(seq), "raising": True})
     # the same on an IPv6 socket (source addresses are 4-tuples there)
     for age in ("recent", "old"):
         for e in events:
@@ -92,10 +98,17 @@ def points(tier: str) -> List[Dict[str, Any]]:
 
 
 class Lst:
-    def __init__(self, w: World, log: List[tuple]) -> None:
+    def __init__(self, w: World, log: List[tuple], raise_once: bool = False) -> None:
         self.w, self.log = w, log
+        self.raise_once = raise_once
 
-    def add_service(self, zc: Any, t: str, n: str) -> None: self.log.append((self.w.now_ms, "add", n))
+    def add_service(self, zc: Any, t: str, n: str) -> None:
+        self.log.append((self.w.now_ms, "add", n))
+        if self.raise_once:
+            # an application callback that fails (once): the exception leaves datagram_received, asyncio logs it and goes on
+            self.raise_once = False
+            raise RuntimeError("application callback failed")
+
     def remove_service(self, zc: Any, t: str, n: str) -> None: self.log.append((self.w.now_ms, "rm", n))
     def update_service(self, zc: Any, t: str, n: str) -> None: self.log.append((self.w.now_ms, "upd", n))
 
@@ -126,7 +139,7 @@ def execute(p: Dict[str, Any], mode: str) -> Tuple[List[Tuple[float, tuple, byte
 
         zc.async_add_listener(UL(), None)
         register(w, host, make_info(S1))
-        AsyncServiceBrowser(zc, TB, listener=Lst(w, log))
+        AsyncServiceBrowser(zc, TB, listener=Lst(w, log, bool(p.get("raising"))))
         w.advance({"recent": 100, "old": 40_000, "ancient": 1_200_000}[p["age"]])
         t0 = w.now_ms
         n0 = len(w.net.trace)
@@ -137,7 +150,12 @@ def execute(p: Dict[str, Any], mode: str) -> Tuple[List[Tuple[float, tuple, byte
             _, data, port, has_qu = alpha[name]
             times = 2 if mode == "dup-all" or (mode == "dup-qm" and not has_qu) else 1
             for _ in range(times):
-                proto.datagram_received(data, ("fe80::99", port, 0, 3) if v6 else ("10.0.0.99", port))
+                try:
+                    proto.datagram_received(data, ("fe80::99", port, 0, 3) if v6 else ("10.0.0.99", port))
+                except RuntimeError as exc:
+                    if not (p.get("raising") and "application callback failed" in str(exc)):
+                        raise
+                    log.append((w.now_ms, "escaped", "callback"))
             w.settle()
         w.advance(4000)
         trace = [(round(s.t_us / 1000 - t0, 3), s.dest[:2], s.data) for s in w.net.trace[n0:] if s.host == host.name]
